@@ -92,6 +92,10 @@ type XSheet struct {
 	// row index is then one more than the previous row's). Only legal when
 	// RowOrder is 0,1,2,… without gaps; the cells keep their references.
 	OmitRowR bool
+	// OmitCellR leaves out the optional r attribute of <c> wherever the cell is
+	// in the column right after the cell written before it (or in column A at the
+	// start of a row).
+	OmitCellR bool
 }
 
 // XWorkbook is a whole package.
@@ -392,19 +396,25 @@ func xSheetXML(s *XSheet, sstIndex map[*XCell]int) []byte {
 			continue
 		}
 		sb.WriteString(`>`)
+		prevCol := -1
 		for _, c := range cells {
-			ref := XRef(c.Col, c.Row)
+			// r is optional (§18.3.1.4): a cell without it follows the cell written before it
+			ref := ` r="` + XRef(c.Col, c.Row) + `"`
+			if s.OmitCellR && c.Col == prevCol+1 {
+				ref = ""
+			}
+			prevCol = c.Col
 			st := ""
 			if c.Style != 0 {
 				st = fmt.Sprintf(` s="%d"`, c.Style)
 			}
 			switch c.Kind {
 			case XShared, XSharedRich:
-				fmt.Fprintf(&sb, `<c r="%s"%s t="s"><v>%d</v></c>`, ref, st, sstIndex[c])
+				fmt.Fprintf(&sb, `<c%s%s t="s"><v>%d</v></c>`, ref, st, sstIndex[c])
 			case XInline:
-				fmt.Fprintf(&sb, `<c r="%s"%s t="inlineStr"><is>%s</is></c>`, ref, st, xT(c.V))
+				fmt.Fprintf(&sb, `<c%s%s t="inlineStr"><is>%s</is></c>`, ref, st, xT(c.V))
 			case XInlineRich:
-				fmt.Fprintf(&sb, `<c r="%s"%s t="inlineStr"><is>`, ref, st)
+				fmt.Fprintf(&sb, `<c%s%s t="inlineStr"><is>`, ref, st)
 				for k, run := range c.Runs {
 					if k%2 == 0 {
 						sb.WriteString(`<r><rPr><b/></rPr>` + xT(run) + `</r>`)
@@ -414,29 +424,29 @@ func xSheetXML(s *XSheet, sstIndex map[*XCell]int) []byte {
 				}
 				sb.WriteString(`</is></c>`)
 			case XFormulaStr:
-				fmt.Fprintf(&sb, `<c r="%s"%s t="str"><f>%s</f><v>%s</v></c>`, ref, st, ptEsc(c.Formula), ptEsc(c.V))
+				fmt.Fprintf(&sb, `<c%s%s t="str"><f>%s</f><v>%s</v></c>`, ref, st, ptEsc(c.Formula), ptEsc(c.V))
 			case XBool:
 				if c.Formula != "" {
-					fmt.Fprintf(&sb, `<c r="%s"%s t="b"><f>%s</f><v>%s</v></c>`, ref, st, ptEsc(c.Formula), c.V)
+					fmt.Fprintf(&sb, `<c%s%s t="b"><f>%s</f><v>%s</v></c>`, ref, st, ptEsc(c.Formula), c.V)
 				} else {
-					fmt.Fprintf(&sb, `<c r="%s"%s t="b"><v>%s</v></c>`, ref, st, c.V)
+					fmt.Fprintf(&sb, `<c%s%s t="b"><v>%s</v></c>`, ref, st, c.V)
 				}
 			case XError:
 				if c.Formula != "" {
-					fmt.Fprintf(&sb, `<c r="%s"%s t="e"><f>%s</f><v>%s</v></c>`, ref, st, ptEsc(c.Formula), ptEsc(c.V))
+					fmt.Fprintf(&sb, `<c%s%s t="e"><f>%s</f><v>%s</v></c>`, ref, st, ptEsc(c.Formula), ptEsc(c.V))
 				} else {
-					fmt.Fprintf(&sb, `<c r="%s"%s t="e"><v>%s</v></c>`, ref, st, ptEsc(c.V))
+					fmt.Fprintf(&sb, `<c%s%s t="e"><v>%s</v></c>`, ref, st, ptEsc(c.V))
 				}
 			case XNumber:
 				t := ""
 				if c.ExplicitN {
 					t = ` t="n"`
 				}
-				fmt.Fprintf(&sb, `<c r="%s"%s%s><v>%s</v></c>`, ref, st, t, c.V)
+				fmt.Fprintf(&sb, `<c%s%s%s><v>%s</v></c>`, ref, st, t, c.V)
 			case XFormulaNum:
-				fmt.Fprintf(&sb, `<c r="%s"%s><f>%s</f><v>%s</v></c>`, ref, st, ptEsc(c.Formula), c.V)
+				fmt.Fprintf(&sb, `<c%s%s><f>%s</f><v>%s</v></c>`, ref, st, ptEsc(c.Formula), c.V)
 			case XBlank:
-				fmt.Fprintf(&sb, `<c r="%s" s="1"/>`, ref)
+				fmt.Fprintf(&sb, `<c%s s="1"/>`, ref)
 			}
 		}
 		sb.WriteString(`</row>`)
